@@ -269,11 +269,12 @@ CLAIMED = {
    text="PARTIAL - deductive proof of the clauses listed here on the real source, bounded stand-ins (never counted as proved) for the rest of the property. tools.expand_path for ALL words and switch settings, with os.path.expanduser / expandvars as ghost functions: a word is returned untouched when both expansions are off; "
         "with tilde expansion off the result is exactly the ($VAR-expanded) word; a plain word gets exactly one tilde expansion; for `key=value` the key is expanded, the `=` kept, "
         "and the result is key' = ':'.join(map(expanduser, value.split(':'))) - EACH colon-separated field expanded on its own, none dropped, added or merged (map over a sequence "
-        "value is the uninterpreted sequence map_f(xs) with its two defining facts, so code and clause denote the same term). Bounded stand-in (not proved): 39 argument strings "
+        "value is the uninterpreted sequence map_f(xs) with its two defining facts, so code and clause denote the same term). @() injection: ensure_str_or_callable returns a string or callable untouched (bytes: os.fsdecode); list_of_strs_or_callables "
+        "turns a string into exactly one argument equal to it and a list of strings into one argument per element, in order, each untouched. "
+        "Bounded stand-in (not proved): 40 argument strings "
         "(spaces, quotes, backslashes, newlines, glob and shell metacharacters, tilde / assignment shapes) x up to 8 delivery forms (@(expr), @([list]), r'..', r\"\"\"..\"\"\", plain, "
         "triple-quoted, f-string, bare word) x 3 positions through the real execer to a recording callable alias, plus a real child process for a subset.",
-   note="Unverified: the parser actions that assemble the argument list (_subproc_cliargs, p_subproc_atom_*, p_string_literal - bounded only), @() injection helpers "
-        "(list_of_strs_or_callables, ensure_str_or_callable), macro raw-text slicing, SubprocSpec.resolve_args_list / _fix_null_cmd_bytes, @$() re-splitting, expandvars itself, "
+   note="KNOWN FINDING (recorded): a value injected right next to a word (`w@('*')`) is globbed / tilde-expanded. Unverified: the parser actions that assemble the argument list (_subproc_cliargs, p_subproc_atom_*, p_string_literal - bounded only), list_of_list_of_strs_outer_product (see the known finding), macro raw-text slicing, SubprocSpec.resolve_args_list / _fix_null_cmd_bytes, @$() re-splitting, expandvars itself, "
         "that os.path.expanduser leaves text not starting with `~` alone (assumed). Trusted: pyvc engine + str.split / str.join / map as uninterpreted functions + z3.",
    design="§3 C04"),
  "C18": dict(
